@@ -544,7 +544,7 @@ def dispatch (s : Program) (f : Frame) (st : St) (e : Expr) : Disp :=
   | .var _ _ name =>
     match getVar s f name with
     | some v => .ok (f.pushVIf used v)
-    | none => .err f .N [] (.noSuchVar name)
+    | none => .err f st [] (.noSuchVar name)   -- `*expr_state` is left untouched on this path
   | .lambda _ _ params body => .ok (f.pushVIf used (.closure f.blocks params body))
   | .paren _ _ inner => .ok (f.pushE .N inner)
   | .invalid .. => .err f st [] .invalidSyntax
